@@ -1,6 +1,6 @@
 (* Properties/C19.v — vertices and transactions survive every transcoding unchanged. *)
 From Coq Require Import List Arith NArith ZArith Lia Bool.
-From Verif Require Import WalletFile Msg Codec CodecP.
+From Verif Require Import WalletFile Msg Codec CodecP Msgpack CodecFields MsgpackP.
 Import ListNotations.
 Local Open Scope Z_scope.
 
@@ -24,3 +24,46 @@ Theorem C19_msgpack_time_roundtrip : forall sec nsec rest, - P63 <= sec < P63 ->
   dec_time (enc_time sec nsec ++ rest) = Some (sec, nsec).
 Proof. exact time_roundtrip. Qed.
 Print Assumptions C19_msgpack_time_roundtrip.
+
+(* The storage / cache (msgpack) form, whole structs.  (1) The layout the model encodes - msgpack tags, their order
+   and the kind of every field of Melange, Transaction and Vertex - is the one declared in the Go source NOW
+   (Gen/CodecFields.v is regenerated from the struct declarations on every run; a renamed tag, a reordered, added,
+   retyped or omitempty field makes this evaluation false) ... *)
+Theorem C19_msgpack_layout_is_the_source_layout :
+  fields_eqb gen_mel_fields mel_fields && fields_eqb gen_trx_fields trx_fields && fields_eqb gen_vtx_fields vtx_fields = true.
+Proof. vm_compute. reflexivity. Qed.
+Print Assumptions C19_msgpack_layout_is_the_source_layout.
+
+(* ... (2) the model's encoders are exactly those tables read in order (a fixmap of the fields, each as key then value
+   in the encoding of its kind); the encoders are compared byte for byte with msgpack.Marshal on every run ... *)
+Theorem C19_msgpack_encoders_follow_layout :
+  (forall m, enc_mel m = enc_struct mel_fields (mel_vals m) /\ map kind_of (mel_vals m) = map snd mel_fields) /\
+  (forall t, enc_trx t = enc_struct trx_fields (trx_vals t) /\ map kind_of (trx_vals t) = map snd trx_fields) /\
+  (forall v, enc_vtx v = enc_struct vtx_fields (vtx_vals v) /\ map kind_of (vtx_vals v) = map snd vtx_fields).
+Proof. exact encoders_follow_tables. Qed.
+Print Assumptions C19_msgpack_encoders_follow_layout.
+
+(* ... (3) and every transaction and every vertex decodes back to exactly itself, whatever follows it in the input:
+   for ALL field contents - strings and byte strings of any length below 2^32 (fixstr/str8/str16/str32,
+   bin8/bin16/bin32 and the nil slice), any bytes in them (UTF-8 or not), all 2^64 amounts and weights, all int64
+   seconds with any nanoseconds. *)
+Theorem C19_msgpack_transaction_roundtrip : forall t rest, wf_trx t -> dec_trx (enc_trx t ++ rest) = Some (t, rest).
+Proof. exact trx_roundtrip. Qed.
+Print Assumptions C19_msgpack_transaction_roundtrip.
+
+Theorem C19_msgpack_vertex_roundtrip : forall v rest, wf_vtx v -> dec_vtx (enc_vtx v ++ rest) = Some (v, rest).
+Proof. exact vtx_roundtrip. Qed.
+Print Assumptions C19_msgpack_vertex_roundtrip.
+
+(* Two different vertices never share a stored form. *)
+Theorem C19_msgpack_encoding_injective : forall v w, wf_vtx v -> wf_vtx w -> enc_vtx v = enc_vtx w -> v = w.
+Proof. exact vtx_encoding_injective. Qed.
+Print Assumptions C19_msgpack_encoding_injective.
+
+(* The well-formedness premise is what every Go value satisfies; a concrete one with a nil slice, an empty and a
+   40-byte string, a 300-byte signature and extreme numbers. *)
+Example C19_wf_nonvacuous :
+  wf_vtx (MVtx (repeat 1%N 51) (17179869184, 999999999) (Some (repeat 7%N 64))
+               (MTrx (-1, 5) (repeat 2%N 51) [] (repeat 0%N 40) None (Some []) (Some (repeat 9%N 300)) (repeat 200%N 32) (MMel 18446744073709551615 0))
+               (repeat 3%N 32) (repeat 0%N 32) (repeat 255%N 32) 18446744073709551615).
+Proof. unfold wf_vtx, wf_trx, wf_time, wf_obin, wf_mel, zlen, P32', P63, P64; cbn [mv_signer mv_created mv_sig mv_trx mv_hash mv_left mv_right mv_weight mt_created mt_issuer mt_receiver mt_subject mt_data mt_isig mt_rsig mt_hash mt_spice mm_cur mm_sup fst snd]; rewrite ?repeat_length; cbn [List.length]; repeat split; lia. Qed.
